@@ -1,5 +1,5 @@
 SPECIFICATION Spec
 CONSTANTS
   MaxArgs = 2
-INVARIANTS SigsWellFormed MachineIsOutcome NeverStuck ZeroFill VariadicSpread
+INVARIANTS SigsWellFormed MachineIsOutcome NeverStuck ZeroFill VariadicSpread DispatchRight StringKindsAgree
 CHECK_DEADLOCK FALSE
